@@ -248,7 +248,10 @@ class ExprMixin:
             t = self.ct.parse(self.global_types[key])
             zs = [z3.Const(f"G_{key}{('_' + s) if s else ''}", so) for s, so in comps(t)]
             return V(t, zs)
-        raise EngineError(f"module global {module}.{name} is not a literal (declare it with global_var)")
+        # an undeclared non-literal module global: an opaque value (fixed per global)
+        self.note_assumed(f"module global {module}.{name} (opaque value)")
+        t = TOpaque(f"global_{name}")
+        return V(t, [z3.Const(f"G_{key}", zsort(t))])
 
     # ------------------------------------------------------------------ attribute
     def ev_Attribute(self, e, st):
@@ -296,13 +299,31 @@ class ExprMixin:
                     if attr in d:
                         yield st, self.module_global(ci.module, f"{c}.{attr}", d[attr], st)
                         return
-            raise EngineError(f"class attribute {base.name}.{attr}")
+            # attribute of a class outside the schema (enum members, class constants): an opaque constant
+            t_ = TOpaque(f"classattr_{base.name}")
+            yield st, V(t_, [z3.Const(f"CA_{base.name}_{attr}", zsort(t_))])
+            return
         if isinstance(base, BuiltinRef):
             if base.name == "$logger":
                 yield st, BuiltinRef("$logger")
                 return
+            if base.name.startswith("$super:"):
+                cur = base.name.split(":", 1)[1]
+                slf = st.frame.locals["self"]
+                for c in self.ct.mro(cur)[1:]:
+                    if attr in self.ct.classes[c].methods or REG.contracts.get(f"{self.ct.classes[c].module}:{c}.{attr}"):
+                        yield st, FuncRef(self.ct.classes[c].module, f"{c}.{attr}", bound_self=slf, cls=c)
+                        return
+                # base class outside the schema (object, ABC, Generic): a call without tracked effect
+                self.note_assumed(f"super().{attr} resolved outside the declared classes (no tracked effect)")
+                yield st, V(TOpaque("supermethod"), [z3.Const(fresh_name("sup"), zsort(TOpaque("supermethod")))])
+                return
             yield st, BuiltinRef(base.name + "." + attr)
             return
+        if isinstance(base, MethodRef):
+            b2 = self.as_value(base)
+            if isinstance(b2.t, TOpaque):
+                base = b2
         if isinstance(base, (FuncRef, MethodRef)):
             raise EngineError(f"attribute of function {ast.unparse(node)}")
         assert isinstance(base, V), base
@@ -340,13 +361,20 @@ class ExprMixin:
                 if attr in d:
                     yield st, self.module_global(self.ct.classes[c].module, f"{c}.{attr}", d[attr], st)
                     return
-            raise EngineError(f"{t.cls} has no field/method {attr!r} (line {getattr(node, 'lineno', '?')}: "
-                              f"{ast.unparse(node)})")
+            # an attribute the class schema does not declare: an opaque field (value with identity only)
+            self.note_assumed(f"unmodelled attribute {t.cls}.{attr} (opaque value)")
+            self.ct.classes[t.cls].fields[attr] = TOpaque(f"{t.cls}.{attr}")
+            st2, v = self.field_read(st, base.z, t.cls, attr)
+            yield st2, v
+            return
         if isinstance(t, TTuple) and t.names and attr in t.names:
             yield st, tuple_items(base)[t.names.index(attr)]
             return
         if isinstance(t, TEnum) and attr in ("value", "name"):
             yield st, V(INT, [base.z]) if attr == "value" else fresh(STR, "ename")
+            return
+        if isinstance(t, TOpaque) and attr in ("_logger", "logger", "_LOGGER"):
+            yield st, BuiltinRef("$logger")
             return
         # method of a builtin value
         yield st, MethodRef(node.value if isinstance(node, ast.Attribute) else None, base, attr)
@@ -396,6 +424,10 @@ class ExprMixin:
             return x
         if isinstance(x, Bag):
             raise EngineError("comprehension result used as a value")
+        if isinstance(x, MethodRef) and isinstance(x.recv_val, V) and isinstance(
+                x.recv_val.t.inner if isinstance(x.recv_val.t, TOpt) else x.recv_val.t, TOpaque):
+            # attribute of an opaque object used as a value
+            return fresh(TOpaque(f"attr_{x.name}"), "opq")
         if isinstance(x, (FuncRef, ClassRef, BuiltinRef, ModRef, MethodRef)):
             return mk_bool(True)
         raise EngineError(f"not a value: {x}")
@@ -495,6 +527,10 @@ class ExprMixin:
                 st = st.assume(z3.Not(opt_isnone(b)))
                 b = opt_val(b)
             yield from self.binop(st, op, a, b, node)
+            return
+        if isinstance(ta, TOpaque) or isinstance(tb, TOpaque):
+            self.note_assumed(f"arithmetic on an opaque value: {ast.unparse(node)[:60]} (unknown result, assumed not to raise)")
+            yield st, fresh(TOpaque("arith"), "opq")
             return
         if not (vals.is_num(ta) and vals.is_num(tb)):
             raise EngineError(f"binary {type(op).__name__} on {ta} and {tb}: {ast.unparse(node)}")
@@ -625,6 +661,17 @@ class ExprMixin:
             raise EngineError(f"comparison of non-values {ast.unparse(node)}")
         if isinstance(a, Bag) or isinstance(b, Bag):
             raise EngineError("comparison of comprehension results")
+        if isinstance(a, MethodRef) or isinstance(b, MethodRef):
+            raise EngineError("comparison of a bound method")
+        ta_, tb_ = (a.t.inner if isinstance(a.t, TOpt) else a.t), (b.t.inner if isinstance(b.t, TOpt) else b.t)
+        if (isinstance(ta_, TOpaque) or isinstance(tb_, TOpaque)) \
+                and not isinstance(a.t, TNone) and not isinstance(b.t, TNone) \
+                and not isinstance(op, (ast.Is, ast.IsNot)) \
+                and (ta_ != tb_ or not self.spec or isinstance(op, (ast.Lt, ast.LtE, ast.Gt, ast.GtE))):
+            # comparison involving a value of unknown type: unknown outcome (assumed not to raise)
+            self.note_assumed(f"comparison with an opaque value: {ast.unparse(node)[:60]}")
+            yield st, z3.Bool(fresh_name("opq_cmp"))
+            return
         if isinstance(op, (ast.Is, ast.IsNot)):
             c = self.identical(a, b)
             yield st, (c if isinstance(op, ast.Is) else z3.Not(c))
